@@ -172,6 +172,19 @@ ADD3 = {
     "C19": ("; a failed read of the database is never reported as an empty result: no path from an exception handler of getData to a return without re-raising or a completed read (R5)", "; must-pass analysis over exception handlers"),
 }
 
+ADD4 = {
+    "C02": ("; the optical constraint predicates keep their documented operands and polarity (R14, shared with C14.R3)", ""),
+    "C03": ("; inside the column loop of every derivative nothing computed once per evaluation, nor the solver's state or a view of it, is changed in place - directly or through a resolved callee that modifies the corresponding parameter (R7)", "; parameter-mutation summaries with alias / view tracking (rsa/inplace.py)"),
+    "C04": ("; a result buffer created like a parameter and filled element-wise has an explicit float dtype (R15)", ""),
+    "C07": ("; the visibility and metric matrices are re-created on every path of assess() before the reward jobs, or rewritten on every path of processResults (R1)", ""),
+    "C08": ("; the observation list routed to an estimate reaches its filter whole - no hop keeps a position-dependent subset (R8, shared with C19.R4)", "; selection analysis of list-valued expressions and helpers"),
+    "C11": ("; Terrestrial.propagate hands ecef2eci nothing computed from an attribute captured at construction - an Earth-orientation reduction is the one of the instant itself (R3)", ""),
+    "C12": ("; the Kepler residuals equal their closed forms, both solvers run Newton on their own residual / derivative / argument order or the recognised reduction through arctan2(h, k), every arctan2 over (h, k) / (p, q) takes the sine component first, and same-named arguments between siblings are not transposed (R8)", ""),
+    "C14": ("; azimuth / elevation recoveries are the exact inverses of the spherical model (R12, shared with C04.R10)", ""),
+    "C17": ("; no detector re-binds its configured threshold in __init__, subclasses forward it unchanged (R1)", ""),
+    "C18": ("; the agent installs a started multiple-model filter whenever initialize() succeeded, looks for the CLOSE flag after the start attempt, installs converged_filter and clears the flag (R6)", "; control-dependence of the installation on the start result alone"),
+}
+
 NA_PENDING = "check not built yet in this session (design in DESIGN.md section 4); will be claimed once its rule module exists"
 
 
@@ -191,9 +204,9 @@ def main():
                     evidence_file=f"/verif/evidence/{pid}.json",
                     replay_cmd_template=f"./check {pid} --replay {{path}}",
                     engine="rsa",
-                    level_claimed=dict(category="other", text=d["text"] + (" Added later" + ADD[pid][0] + "." if pid in ADD else "") + (" Added in the continuation" + ADD2[pid][0] + "." if pid in ADD2 else "") + (" Added after the seventh seed round" + ADD3[pid][0] + "." if pid in ADD3 else ""), design_ref=d["ref"]),
+                    level_claimed=dict(category="other", text=d["text"] + (" Added later" + ADD[pid][0] + "." if pid in ADD else "") + (" Added in the continuation" + ADD2[pid][0] + "." if pid in ADD2 else "") + (" Added after the seventh seed round" + ADD3[pid][0] + "." if pid in ADD3 else "") + (" Added after the eighth seed round" + ADD4[pid][0] + "." if pid in ADD4 else ""), design_ref=d["ref"]),
                     level_note=COMMON_NOTE + (" " + d["note"] if d.get("note") else ""),
-                    technique=d["technique"] + (ADD[pid][1] if pid in ADD else "") + (ADD2[pid][1] if pid in ADD2 else "") + (ADD3[pid][1] if pid in ADD3 else ""),
+                    technique=d["technique"] + (ADD[pid][1] if pid in ADD else "") + (ADD2[pid][1] if pid in ADD2 else "") + (ADD3[pid][1] if pid in ADD3 else "") + (ADD4[pid][1] if pid in ADD4 else ""),
                 )
             )
         else:
